@@ -13,6 +13,7 @@ import Verif.Proofs.SubStruct
 import Verif.Proofs.SubAgree2
 import Verif.Proofs.SubTrans4
 import Verif.Proofs.SubCoh
+import Verif.Proofs.SubRuntime
 namespace Verif.Properties.C08
 open Verif.Model.Types Verif.Model.Auth
 
@@ -188,6 +189,16 @@ theorem trans_checked_partial (D : List Iface) (a b c : Ty)
     (Verif.Proofs.SubCoh.good_of_b D a ha) (Verif.Proofs.SubCoh.good_of_b D b hb) (Verif.Proofs.SubCoh.good_of_b D c hc)
     hsta hstc _ _ _ (Nat.le_refl _) (Nat.le_refl _) (Nat.le_refl _) hab hbc
 
+/-- **Run-time subtype tests agree with the checker's relation** (`interpreter.IsSubType`, which unwraps
+    optionals before asking, against `sema.IsSubType`) for every well-formed super type, whenever the sub
+    type is well-formed, kind-stable and does not mention `Any` — optionals included (this extends
+    `runtime_agrees_partial`, which excludes optional sub types altogether).  Outside: the known finding
+    `runtime_optional_never_witness` (`Never? <: AnyResource` at run time only). -/
+theorem runtime_agrees_kindstable_partial (a b : Ty) (ha : a.wf = true) (hb : b.wf = true)
+    (hna : a.noAny = true) (hst : kindStable a = true) (n : Nat) (hn : fuelFor a b ≤ n) :
+    isSubRuntime R n a b = isSub R n a b :=
+  Verif.Proofs.SubTrans.runtime_struct a b ha hb hna hst n hn
+
 /-- **Known finding, contravariant form**: the same failure with the container of `Never` in a function
     parameter of the *super-most* type: `fun(&AnyResource) <: fun(&[AnyResource]) <: fun(&[Never])` but not
     `fun(&AnyResource) <: fun(&[Never])`. -/
@@ -220,6 +231,7 @@ example : cohB exD = true ∧ goodB exD exA = true ∧ goodB exD exB = true ∧ 
 example : isSub R (fuelFor exA exB) exA exB = true ∧ isSub R (fuelFor exB exC) exB exC = true := by decide
 end
 example : kindStable (.ref unauthorized (.varArr never)) = false := by decide
+example : kindStable (.opt (.opt (.comp "R" .resource [] false))) = true ∧ kindStable (.opt never) = false := by decide
 example : (Ty.fn true (.consT (.ref unauthorized (.prim "Integer")) .nilT) (.opt (.dict (.prim "String") (.prim "Int8")))).wf = true := by decide
 example : (Ty.prim "Storable").wf = false ∧ (Ty.consT (.prim "Int") .nilT).wf = false := by decide
 
